@@ -25,12 +25,17 @@ import math
 import cmath
 
 
+EXP_DEN = 2                   # eh(g) = exp(g/EXP_DEN), ch(g) = exp(i*g/EXP_DEN); a run that meets a finer fraction is repeated with 2*EXP_DEN
 NONNEG_ORACLE = None          # set by qv.solve users: callable(P) -> bool, proves p >= 0 with z3
 GENERIC_POSITION = set()      # arguments of log / 1/sqrt proved >= 0 and assumed != 0
 
 
 class Unmodelled(Exception):
     """An operation outside the modelled fragment: the obligation is undecided."""
+
+
+class FinerExp(Unmodelled):
+    """exp of a fraction of a generator finer than 1/EXP_DEN: the run is repeated with a doubled EXP_DEN."""
 
 
 class ValueDependent(Unmodelled):
@@ -882,13 +887,13 @@ def _gen_pow(kind, g, q):
         z = (x + I * y) * inv(sqrt(x * x + y * y))
         n = q.numerator
         return z ** n if n >= 0 else conj(z) ** (-n)
-    q2 = 2 * q
+    q2 = EXP_DEN * q
     if q2.denominator != 1:
-        raise Unmodelled("exp of %s times a parameter (only multiples of 1/2 are modelled)" % q)
+        raise FinerExp("exp of %s times a parameter (only multiples of 1/%d are modelled)" % (q, EXP_DEN))
     if kind == "eh":
-        a = _mk("eh", (g.id,), args=(g,), invertible=True, pos=True, name="e^(%s/2)" % g.name)
+        a = _mk("eh", (g.id,), args=(g,), invertible=True, pos=True, name="e^(%s/%d)" % (g.name, EXP_DEN))
     else:
-        a = _mk("ch", (g.id,), args=(g,), invertible=True, real=False, name="cis(%s/2)" % g.name)
+        a = _mk("ch", (g.id,), args=(g,), invertible=True, real=False, name="cis(%s/%d)" % (g.name, EXP_DEN))
     return P.of_atom(a, q2.numerator)
 
 
@@ -956,7 +961,7 @@ def log(p):
             for a, e in m:
                 at = _ATOMS[a]
                 if at.kind == "eh":
-                    out = out + P.of_atom(at.args[0]) * Fr(e, 2)
+                    out = out + P.of_atom(at.args[0]) * Fr(e, EXP_DEN)
                 elif at.kind == "R" and at.pos:
                     out = out + log(at.args[0]) * Fr(e, 2)
                 elif at.kind == "Inv" and at.pos:
@@ -1271,9 +1276,9 @@ def _datom(at, x, memo):
     elif k in ("i",):
         r = ZERO
     elif k == "eh":
-        r = _datom(at.args[0], x, memo) * P.of_atom(at) / 2
+        r = _datom(at.args[0], x, memo) * P.of_atom(at) / EXP_DEN
     elif k == "ch":
-        r = _datom(at.args[0], x, memo) * P.of_atom(at) * I / 2
+        r = _datom(at.args[0], x, memo) * P.of_atom(at) * I / EXP_DEN
     elif k == "R":
         du = diff(at.args[0], x, memo)
         r = ZERO if not du.t else du * inv(P.of_atom(at)) / 2
@@ -1325,11 +1330,11 @@ def _evatom(at, env, cache):
     elif k in ("par", "UF"):
         r = env[at.key[1]]
     elif k == "eh":
-        r = math.exp(_evatom(at.args[0], env, cache).real / 2) if isinstance(_evatom(at.args[0], env, cache), complex) \
-            else math.exp(_evatom(at.args[0], env, cache) / 2)
+        r = math.exp(_evatom(at.args[0], env, cache).real / EXP_DEN) if isinstance(_evatom(at.args[0], env, cache), complex) \
+            else math.exp(_evatom(at.args[0], env, cache) / EXP_DEN)
     elif k == "ch":
         g = _evatom(at.args[0], env, cache)
-        r = cmath.exp(1j * g / 2)
+        r = cmath.exp(1j * g / EXP_DEN)
     elif k == "R":
         u = evalf(at.args[0], env, cache)
         u = u.real if isinstance(u, complex) else u
